@@ -359,8 +359,14 @@ macro_rules! backend_impl {
                         let k = nat(f[2]);
                         let pm = meta(f[3], f[4]);
                         let pb = nat(f[5]);
-                        // keep the slot values inside what a plaintext of this precision can hold
-                        let cap_bits = (pm.min_k(Base2K(pb.max(1) as u32)).as_usize() as i64 - pm.log_delta as i64 - 2).clamp(-8, 40);
+                        // keep the slot values inside what a plaintext of this precision can hold: the limbs of the
+                        // container, and the integer path `to_znx` selects from the declared metadata (`i64` when
+                        // log_delta + log_budget <= 63, `i128` otherwise: `(x * 2^log_delta).to_i64().unwrap()` panics
+                        // for f64 and wraps silently for f128 beyond it — the caller's overflow, see ctx.assumptions)
+                        let int_bits: i64 = if pm.log_delta + pm.log_budget <= 63 { 63 } else { 127 };
+                        let cap_bits = (pm.min_k(Base2K(pb.max(1) as u32)).as_usize() as i64 - pm.log_delta as i64 - 2)
+                            .min(int_bits - pm.log_delta as i64 - 2)
+                            .clamp(-8, 40);
                         let v = gen_slots(step, m, mag.min((cap_bits as f64).exp2()));
                         let z = pt_znx(ctx, pm, pb, &v).map_err(|e| err_string(&e))?;
                         let lay = EncryptionLayout::new_from_default_sigma(GLWELayout {
